@@ -11,7 +11,8 @@ import (
 )
 
 type Clause struct {
-	Local bool // proved at returns, not exported to callers
+	Local   bool // proved at returns, not exported to callers
+	Assumed bool // exported to callers, not proved (listed as an assumption)
 	Kind  string
 	Label string
 	Text  string
@@ -50,6 +51,7 @@ type Contract struct {
 	Modifies []*Clause
 	Uses     []*Clause
 	Loops    map[int]*LoopSpec
+	LabelLoops map[string]*LoopSpec
 	Ats      []*AtSpec
 	Flags    map[string]string // trusted, pure, inline, frame, panics, ...
 	Params   []Param           // lemma parameters
@@ -120,7 +122,7 @@ var clauseKeywords = map[string]bool{
 	"trusted": true, "bounded": true, "at": true, "frame": true, "inline": true, "pure": true,
 	"balanced": true, "order": true, "noescape": true, "nowrite": true, "fresh": true, "reveal": true,
 	"assume": true, "panics": true, "params": true, "ghost": true, "effects": true, "transfers": true,
-	"havoc": true, "calls": true, "nocall": true, "returns": true, "abstract": true, "note": true, "guarantees": true, "defines": true,
+	"havoc": true, "calls": true, "nocall": true, "returns": true, "abstract": true, "note": true, "guarantees": true, "defines": true, "touches": true, "assumes": true,
 }
 
 var labelRe = regexp.MustCompile(`^\[([A-Za-z0-9_\-./<>=]+)\]\s*`)
@@ -315,7 +317,7 @@ func (sw *SpecWorld) parseDirective(file, pkg string, d rawLine, body []rawLine)
 			return err
 		}
 		sw.Axioms = append(sw.Axioms, &Axiom{Name: strings.TrimSpace(text[:k]), Expr: e, PkgName: pkg, Text: text})
-	case "lock", "event", "transfer", "lockinv", "protect", "allow":
+	case "lock", "event", "transfer", "lockinv", "protect", "allow", "handoff", "chanvalue":
 		sw.Decls = append(sw.Decls, &Decl{Kind: kw, Text: joinCont(rest, body), PkgName: pkg, File: file, Line: d.line})
 	case "func", "interface", "lemma":
 		c := &Contract{Kind: kw, PkgName: pkg, File: file, Line: d.line, Loops: map[int]*LoopSpec{}, Flags: map[string]string{}}
@@ -392,7 +394,7 @@ func parseClauses(c *Contract, file string, body []rawLine) error {
 				cla.Text = t
 			}
 			switch x.kw {
-			case "requires", "ensures", "invariant", "decreases", "assert", "assume", "guarantees":
+			case "requires", "ensures", "invariant", "decreases", "assert", "assume", "guarantees", "assumes":
 				e, err := parseSpec(t)
 				if err != nil {
 					return nil, fmt.Errorf("line %d: %v", x.line, err)
@@ -419,6 +421,17 @@ func parseClauses(c *Contract, file string, body []rawLine) error {
 			}
 			c.Params = ps
 		case "loop":
+			if strings.HasPrefix(strings.TrimSpace(x.text), "@") {
+				// a goto loop, named by its label
+				curLoop = &LoopSpec{Ordinal: -1}
+				if c.LabelLoops == nil {
+					c.LabelLoops = map[string]*LoopSpec{}
+				}
+				c.LabelLoops[strings.TrimPrefix(strings.TrimSpace(x.text), "@")] = curLoop
+				curAt = nil
+				subIndent = x.indent
+				continue
+			}
 			n, err := strconv.Atoi(strings.TrimSpace(x.text))
 			if err != nil {
 				return fmt.Errorf("line %d: bad loop ordinal %q", x.line, x.text)
@@ -438,12 +451,13 @@ func parseClauses(c *Contract, file string, body []rawLine) error {
 				return err
 			}
 			c.Requires = append(c.Requires, cla)
-		case "ensures", "guarantees":
+		case "ensures", "guarantees", "assumes":
 			cla, err := mk()
 			if err != nil {
 				return err
 			}
 			cla.Local = x.kw == "guarantees"
+			cla.Assumed = x.kw == "assumes"
 			c.Ensures = append(c.Ensures, cla)
 		case "modifies":
 			cla, _ := mk()
